@@ -109,3 +109,83 @@ pub fn history_pairs<T: Sync>(name: &str, pool: &[T], op: &(dyn Fn(&T) -> String
         local.count(&format!("history-pairs:{name}"));
     })
 }
+
+
+/// A writer that fails at its k-th call (for observations that include failing encodes).
+pub struct FailAt {
+    pub calls: usize,
+    pub k: usize,
+    pub out: Vec<u8>,
+}
+impl std::io::Write for FailAt {
+    fn write(&mut self, buf: &[u8]) -> std::io::Result<usize> {
+        self.calls += 1;
+        if self.calls >= self.k {
+            return Err(std::io::Error::new(std::io::ErrorKind::BrokenPipe, "peer hung up"));
+        }
+        self.out.extend_from_slice(buf);
+        Ok(buf.len())
+    }
+    fn flush(&mut self) -> std::io::Result<()> {
+        Ok(())
+    }
+}
+
+/// History independence under accumulation: after `reps` repetitions of `op` on w (in particular
+/// operations that FAIL part-way: a counter that is incremented on entry and not decremented on
+/// the error path, a buffer that grows, a pool that drains) the result for v is the result for v
+/// alone — every w of `before` x every v of `then`.
+pub fn history_after_repeats<T: Sync>(name: &str, before: &[T], then: &[T], reps: usize, op: &(dyn Fn(&T) -> String + Sync), show: &(dyn Fn(&T) -> J + Sync)) -> Local {
+    let baseline: Vec<String> = then.iter().map(|x| std::thread::scope(|s| s.spawn(|| crate::engine::guarded(|| op(x)).unwrap_or_else(|p| format!("panic: {p}"))).join().unwrap())).collect();
+    crate::engine::par_for(before.len(), |w, local| {
+        // a thread of its own: the accumulated state must not leak into the other checks
+        let fails: Vec<(usize, String)> = std::thread::scope(|s| {
+            s.spawn(|| {
+                for _ in 0..reps {
+                    let _ = crate::engine::guarded(|| op(&before[w]));
+                }
+                let mut out = vec![];
+                for (v, want) in baseline.iter().enumerate() {
+                    let got = crate::engine::guarded(|| op(&then[v])).unwrap_or_else(|p| format!("panic: {p}"));
+                    if got != *want {
+                        out.push((v, got));
+                    }
+                }
+                out
+            })
+            .join()
+            .unwrap()
+        });
+        local.evals += (reps + then.len()) as u64;
+        local.count(&format!("history-repeats:{name}"));
+        for (v, got) in fails {
+            local.fail(
+                &format!("history-changes-output:{name}:after-repeats"),
+                json!({"history_repeats": name, "reps": reps, "before": show(&before[w]), "then": show(&then[v])}),
+                format!("{name}: after {reps} repetitions of the same operation on {} the result for {} is {}, alone it is {}", show(&before[w]), show(&then[v]), got.chars().take(300).collect::<String>(), baseline[v].chars().take(300).collect::<String>()),
+            );
+        }
+    })
+}
+
+/// replay of a `history_repeats` case
+pub fn replay_history_repeats<T: Sync>(case: &J, parse: &dyn Fn(&J) -> T, op: &(dyn Fn(&T) -> String + Sync), name: &str) -> Verdict {
+    let (w, v) = (parse(&case["before"]), parse(&case["then"]));
+    let reps = case["reps"].as_u64().unwrap_or(300) as usize;
+    let alone = std::thread::scope(|s| s.spawn(|| op(&v)).join().unwrap());
+    let after = std::thread::scope(|s| {
+        s.spawn(|| {
+            for _ in 0..reps {
+                let _ = crate::engine::guarded(|| op(&w));
+            }
+            op(&v)
+        })
+        .join()
+        .unwrap()
+    });
+    if alone == after {
+        Ok(())
+    } else {
+        Err((format!("history-changes-output:{name}:after-repeats"), format!("alone {}, after {}", alone.chars().take(200).collect::<String>(), after.chars().take(200).collect::<String>())))
+    }
+}
